@@ -698,6 +698,7 @@ func (dc *ClientDnsConnection) AutodetectFragmentSize() (uint32, error) {
 	log.Debugf("Autoprobing max downstream fragment size... (skip with -m fragsize)")
 	for !dc.Closed() && (fragmentRange >= 8 || max < 300) {
 		/* stop the slow probing early when we have enough bytes anyway */
+		ok := false
 		for i := 0; !dc.Closed() && i < 3; i++ {
 			resp, err := dc.SendFragmentSizeTest(proposed, secs(1))
 			if isTimeout(err) {
@@ -711,7 +712,6 @@ func (dc *ClientDnsConnection) AutodetectFragmentSize() (uint32, error) {
 			}
 
 			if proposed != resp.FragmentSize {
-				// Keep max as is
 				log.Warnf("Expected %d bytes but server acknowledged %d", proposed, resp.FragmentSize)
 				break
 			} else if uint32(len(resp.Data)) != resp.FragmentSize {
@@ -721,30 +721,33 @@ func (dc *ClientDnsConnection) AutodetectFragmentSize() (uint32, error) {
 				err = errors.WithStack(err)
 				if dc.Serializer.Downstream.Encoder == enc.Base32Encoding {
 					log.WithError(err).Errorf("Corruption in downstream even with the most basic (Base32) encoder: %v", err)
-					return 0, err
 				} else {
 					log.WithError(err).Errorf("Corruption in downstream even with %v. Try Base32 downstream enodeer: %v", dc.Serializer.Downstream.Encoder, err)
-					return 0, err
 				}
-			} else {
-				max = proposed
+				return 0, err
 			}
 
-			if max < 0 {
-				break
-			}
+			ok = true
+			break
+		}
 
-			fragmentRange = fragmentRange >> 1
-
-			if max == proposed {
-				/* Try bigger */
-				log.Tracef("%d ok, will try %d next.. ", proposed, proposed+fragmentRange)
-				proposed += fragmentRange
-			} else {
-				/* Try smaller */
-				log.Tracef("%d not ok, will try %d next.. ", proposed, proposed-fragmentRange)
-				proposed -= fragmentRange
-			}
+		// A probe which got no (usable) answer in three attempts means "too big": bisect downwards
+		if ok {
+			max = proposed
+		}
+		fragmentRange = fragmentRange >> 1
+		if ok {
+			/* Try bigger */
+			log.Tracef("%d ok, will try %d next.. ", proposed, proposed+fragmentRange)
+			proposed += fragmentRange
+		} else {
+			/* Try smaller */
+			log.Tracef("%d not ok, will try %d next.. ", proposed, proposed-fragmentRange)
+			proposed -= fragmentRange
+		}
+		if fragmentRange == 0 {
+			/* nothing left to bisect */
+			break
 		}
 	}
 	if dc.Closed() {
